@@ -5,11 +5,15 @@ Tie (a) `burst`: lock-step histories.  Every history owns a limiter tree whose t
 calls the API in bursts between two observed ticks (a white-box sentinel request on a detached closed dummy limiter,
 injected by go/overlay/c16_rate_hook.go, marks "the tick has been served"; a burst that is not certainly inside its
 period is output as `inconclusive` and does not count).  The driver replays the same calls on `RL.exec`.
+After every call the harness also prints the whole private state of the tree (go/overlay/c16_rate_dump.go) and the driver
+the model's; three build levels (hooks + dump / hooks only / black box), see `_build`.
 Tie (b) `stress`: Close-vs-tick stress with microsecond periods, judged by the harness, every line in a child process."""
 
 import re
 
 OVERLAY = {"rate/zz_verif_c16_hook.go": "c16_rate_hook.go"}
+# the state dump names more private fields than the hooks do: it is a separate overlay file with a fallback of its own
+OVERLAY_DUMP = {"rate/zz_verif_c16_hook.go": "c16_rate_hook.go", "rate/zz_verif_c16_dump.go": "c16_rate_dump.go"}
 _ERR = re.compile(r"err-(neg|cap|closed|other)")
 
 
@@ -24,7 +28,7 @@ def _race_stress(ctx):
     race detector: a data race inside the package kills the child process, which the parent reports as FAIL."""
     if ctx.replay or "harness" not in ctx.harness_bin:
         return
-    if not ctx.harness("./cmd/c16", name="harness_race", race=True, overlay=OVERLAY):
+    if not ctx.harness("./cmd/c16", name="harness_race", race=True, tags="verif nodump", overlay=OVERLAY):
         return
     n = 16 if ctx.tier == "quick" else 120
     lines = [re.sub(r" \d+$", " 12", l) for l in ctx.gen("stress", ctx.seed * 7919 + 23, n)]
@@ -72,6 +76,11 @@ def _mask_inconclusive(ctx):
         inc = sum(1 for x in io if x == "inconclusive")
         stats["inconclusive"] += inc
         stats["conclusive"] += len(io) - inc
+        # the driver prints the model's whole state behind ` # ` after every call; a harness built without the state
+        # dump (fallback builds), or a call that hung, prints none: then only the part before it is compared
+        dumped = sum(1 for x in io if " # " in x)
+        stats["with_state_dump"] = stats.get("with_state_dump", 0) + dumped
+        mo = [y if " # " in x else y.split(" # ")[0] for x, y in zip(io, mo)]
         return ["inconclusive" if x == "inconclusive" else y for x, y in zip(io, mo)]
 
     ctx.run_impl, ctx.run_model = run_impl, run_model
@@ -135,6 +144,61 @@ def _stress_corpus(ctx):
                                    "replay": ctx._write_replay(rep), "concrete": True})
 
 
+def _build(ctx):
+    """Three levels of white-box access: lock / sentinel hooks + state dump; hooks only (tag nodump) when the dump, which
+    names more private fields, no longer compiles; black box (tag nooverlay, the fallback of core.harness) when the hooks
+    do not compile either."""
+    ctx.harness("./cmd/c16", overlay=OVERLAY_DUMP)
+    if "overlay_fallback" in ctx.extra:
+        why = ctx.extra.pop("overlay_fallback")
+        ctx.harness("./cmd/c16", tags="verif nodump", overlay=OVERLAY)
+        if "overlay_fallback" not in ctx.extra:
+            ctx.extra["dump_fallback"] = ("the state dump did not compile against the working tree (%s); built with the "
+                                          "lock / sentinel hooks only: answers and API observations are compared, the "
+                                          "private counters and the queue are not" % why[:160])
+
+
+def _amt_class(a):
+    try:
+        a = int(a)
+    except ValueError:
+        return "?"
+    if a < 0:
+        return "neg" if a > -(1 << 62) else "neg-huge"
+    if a == 0:
+        return "0"
+    if a < 16:
+        return "1..15"
+    if a < (1 << 31):
+        return "16..2^31"
+    if a < (1 << 62):
+        return "2^31..2^62"
+    return ">=2^62"
+
+
+def _tagger(line, out):
+    """distribution of the generated calls (evidence: coverage.tag_histogram): kind x magnitude class x outcome"""
+    f = line.split()
+    if not f or out in ("inconclusive", "bad-op", "bad-handle"):
+        return None
+    main = out.split(" # ")[0]
+    if f[0] == "use" and len(f) == 3:
+        o = main.split()[-1]
+        return "use amt=%s -> %s" % (_amt_class(f[2]), o)
+    if f[0] in ("new", "setcap") and len(f) == 3:
+        return "%s cap=%s%s" % (f[0], _amt_class(f[2]), " (limiter closed)" if main == "nil" else "")
+    if f[0] == "close" and len(f) == 2:
+        return "close root" if f[1] == "0" else "close child"
+    if f[0] == "tick":
+        k = sum(1 for w in main.split() if w.startswith("r") and "=" in w)
+        return "tick answering %s" % ("0" if k == 0 else "1" if k == 1 else "2..5" if k <= 5 else "6+")
+    if f[0] == "window":
+        ops = sorted(o.split()[0] + ("0" if o.split()[0] == "close" and o.split()[1] == "0" else "")
+                     for o in " ".join(f[2:]).split(";") if o.split())
+        return "window %s %s" % (f[1], "+".join(ops))
+    return f[0]
+
+
 def run(ctx):
     ctx.modelled += [
         "controller.lock is a field of the model state (RL.S.holder): the ticker goroutine (select / lock / body / "
@@ -152,13 +216,23 @@ def run(ctx):
         "(lines `window early|late op ; op ; op`) runs the Close-vs-tick window: the harness holds the lock (white box, "
         "go/overlay/c16_rate_hook.go) across a tick so that the ticker goroutine and up to three calls (root/child "
         "Close, Use, SetCap, New) wait for it, releases it, and the driver computes the outcomes of ALL interleavings of "
-        "the single steps (RL.micro / runMicros); the line is accepted iff the observed outcome is in the set",
+        "the single steps (RL.explore, Model/RateLimiterWindow.lean, through RL.micro: sound - every listed outcome is a run "
+        "of RL.Step, C16.window_outcomes_are_runs - and complete - every interleaving of the waiting threads shorter than the "
+        "fuel is listed, C16.window_exploration_is_complete); the line is accepted iff the observed outcome is in the set",
         "the lock-step harness observes ticks through a white-box sentinel request (go/overlay/c16_rate_hook.go) on a "
         "detached closed limiter; it does not touch the tree",
+        "after EVERY call of a burst history (and every window) the whole state is compared, not only what the call "
+        "returns: capacity, used (open limiters), last, closed of every limiter and the waiting queue in order as "
+        "limiter:amount (requests on closed limiters left out), read under the lock by go/overlay/c16_rate_dump.go and "
+        "printed by the driver from RL.S; in a window the dump is part of the outcome that selects the interleaving",
+        "the driver computes the decisions of every Use twice, in Go's wrapping 64-bit ints (Model/RateLimiterInt.lean) and "
+        "on naturals, and reports a difference (C16.go_int_arithmetic_is_model_arithmetic proves there is none)",
     ]
     ctx.assumptions += [
-        "capacities: New / Limiter.New / SetCap store max(capacity, 0) (commit 4e94d2c), which is the model's Nat "
-        "capacity (the driver maps a negative argument to 0, Cap() reports 0); negative arguments incl. -1, -MaxInt, "
+        "capacities: New / Limiter.New / SetCap are given any Go int and store max(capacity, 0) (commit 4e94d2c); the "
+        "clamp is part of the model (RL.clampCap, applied by RL.initGo and the plans of RL.exec; the driver passes the "
+        "argument through unchanged; C16.nonpositive_cap_grants_nothing, contrast "
+        "C16.unclamped_negative_cap_looks_unlimited); negative arguments incl. -1, -MaxInt, "
         "MinInt are generated and in the corpus; capacities are Go ints, i.e. <= MaxInt (a fact of the type); no "
         "smaller bound is assumed: "
         "C16.int_arithmetic_exact shows 0 <= used, last, queued amounts <= MaxInt and used <= capacity, so every "
@@ -168,12 +242,19 @@ def run(ctx):
         "cap bound is then C16.granted_le_max_cap_in_force / granted_le_max_cap_of_chain (granted in period p <= the "
         "largest capacity the limiter, resp. each ancestor, had during p); granted_le_cap / "
         "granted_le_min_cap_of_chain are the special case without SetCap so far; SetCap is generated in all ties",
-        "`exceeds the cap` is the limiter's own cap: a request above an ancestor's cap but within its own waits until "
-        "Close (model and code agree; not alarmed on)",
+        "`exceeds the cap` is ANY applicable cap (commit 8ceae61): a request above the smallest capacity among the "
+        "limiter and its ancestors is refused at once, and a queued one is refused by the next tick after SetCap lowered "
+        "that minimum (C16.use_above_chain_cap_fails_at_once / queued_above_lowered_chain_cap_fails_at_tick; the variant "
+        "testing the own cap only starves a request: C16.own_cap_only_starves)",
         "close_returns is deadlock freedom over all interleavings with the lock modelled; termination of Close "
         "(close_returns_under_fair_scheduling) assumes scheduler fairness only: goroutines inside their own critical "
         "section run, sync.Mutex is fair to the waiting ticker goroutine, select takes a case that is ready again and "
         "again (C16.fair_run_exists: the assumptions are satisfiable)",
+        "every_request_answered_under_fair_scheduling assumes the same scheduler fairness (HoldersRun, LockFair, and "
+        "DrainFair: the same two for the goroutine's final drain) plus the passing of time (TicksFire: the goroutine does "
+        "not sit at its select for ever); TicksServed, formerly a bare hypothesis, is derived from them "
+        "(C16.ticks_served_under_fair_scheduling); C16.fair_run_with_a_served_tick_exists: a run with a waiting request, "
+        "a served tick and root Close meets all of them",
         "timing: a lock-step burst counts only if it certainly lies within one period (wall-clock window check)",
         "only nil / error is compared for an answer, not which error nor its text (the harness reads the class off the "
         "message; a reworded message must not alarm)",
@@ -184,7 +265,7 @@ def run(ctx):
     ctx.lean(props=["Props.C16"], drivers=["drv_c16"])
     from vlib import lockfacts
     lockfacts.run(ctx, "rate", "Props.C16Lock", "C16Lock")   # lock discipline decided about tables regenerated from the Go source
-    ctx.harness("./cmd/c16", overlay=OVERLAY)
+    _build(ctx)
     if "overlay_fallback" in ctx.extra:
         # the white-box hooks name private identifiers of rate/limiter.go; when they no longer compile the harness is
         # built black-box (tag nooverlay): ticks are observed through calls of the public API on a hidden capacity-1
@@ -196,8 +277,8 @@ def run(ctx):
     _mask_inconclusive(ctx)
     _cheap_minimise(ctx)
     period = "200" if ctx.tier == "quick" else "120"
-    ctx.diff(area="burst", driver="drv_c16", n={"quick": 40000, "thorough": 3000000}, stateful=True,
-             trivial=lambda l, o: o == "inconclusive", canon=_canon,
+    ctx.diff(area="burst", driver="drv_c16", n={"quick": 40000, "thorough": 2400000}, stateful=True,
+             trivial=lambda l, o: o == "inconclusive", canon=_canon, tagger=_tagger,
              extra_env={"C16_PERIOD_MS": period, "C16_PAR": "64"}, timeout=600,
              theorem="C16.granted_le_cap / lastUsed_spec / answer_exactly_once / immediate_errors / "
                      "waiting_served_fifo_as_capacity_returns / close_marks_subtree_and_fails_pending are about "
